@@ -51,8 +51,15 @@ THEOREMS = [
     'C02_convert_any_axis',
     'C02_C_K_any_axis_locus_sense',
     'C02_inadmissible_cards_raise',
+    'C02_P_three_points_thresholded',
+    'C02_P_three_points_band_deviation',
+    'C02_parameter_count_behaviour',
+    'C02_large_selector',
     'C02_number_items_spec',
     'C02_numbered_ids_select_regions',
+    'C02_text_every_card_locus_sense',
+    'C02_split_surface_render',
+    'C02_to_float_denotes',
     'C02_spec_sanity',
     'C02_sense_value_sign',
 ]
@@ -72,7 +79,7 @@ ASSUMPTIONS = [
     'cards carry no TR number (moved surfaces are property C04); hence the '
     'torus branch of convert_torus with a non-coordinate axis is not '
     'modelled (Err EUnmodelled, never reached by the tie)',
-    'the sheet selector of a K card is absent or of magnitude < 2 (int() '
+    'the sheet selector of a K card is absent or of magnitude < 9 (int() '
     'truncation is modelled there; a larger one is Err EUnmodelled); the '
     'theorems take it in {absent, 0, +1, -1}; t^2 >= 0',
     'three-point planes: orientation is proved when no tested quantity lies '
@@ -393,7 +400,8 @@ def gen_malformed(rng):
         mn, prm = gen_card(rng, rng.choice(['kx1', 'ky1', 'kz1', 'k/x1',
                                             'k/y1', 'k/z1']))
         prm[-1] = rng.choice([2.0, -2.0, 0.5, -0.0, 3.0, 1.5, -1.25, -0.5,
-                               1.999, -1.0, 1.0])
+                               1.999, -1.0, 1.0, 2.5, -3.75, 8.0, -8.5,
+                               8.999, 9.0, -9.0, 12.0, 4.0, -7.0])
     return mn, prm, fault
 
 
@@ -483,9 +491,9 @@ def coq_mcnp_out(out):
 
 def model_skips(mn, prm, coll_out):
     '''Inputs on which the model answers EUnmodelled by design: a sheet
-    selector of magnitude >= 2 (|int(nappe)| >= 2).'''
+    selector of magnitude >= 9 (|int(nappe)| >= 9).'''
     if coll_out[0] == 'ok':
-        return any(abs(side) > 1 for _, _, side in coll_out[1])
+        return any(abs(side) > 8 for _, _, side in coll_out[1])
     return False
 
 
@@ -827,8 +835,8 @@ def run(res, tier, seed, proofs_ok):
 def _run(res, tier, seed, proofs_ok):
     rng = random.Random(seed)
     quick = tier == 'quick'
-    per_tag = 64 if quick else 600
-    n_bad = 560 if quick else 5000
+    per_tag = 56 if quick else 600
+    n_bad = 480 if quick else 5000
     res.rule = ('one surface card per case: every mnemonic of the mcnp2cad '
                 'table in every form (4- and 9-entry P, K with/without sheet '
                 'selector, 5/6-entry tori, 2/4-entry X/Y/Z incl. plane, '
@@ -1110,6 +1118,10 @@ def _run(res, tier, seed, proofs_ok):
                        'theorem_or_correspondence': 'tie:evalq'},
                       found_input=False)
 
+    # ---- 4c. the text-to-card path ----
+    import c02_text
+    c02_text.run_ties(res, rng, quick)
+
     # ---- 5. the Spec against the Python references ----
     spec_ties(res, rng, meta, quick)
 
@@ -1124,6 +1136,10 @@ def _run(res, tier, seed, proofs_ok):
         if key in swept:
             continue
         n_sweep += 1
+        if mn == 'p' and len(prm) == 9 and in_p3_band(prm):
+            # inside the thresholds the code follows the thresholded rule
+            # (C02_P_three_points_thresholded); counted for the evidence
+            res.count('sweep:p3-inside-the-band (oracle uses the band)')
         status, detail = sweep_card(rng, mn, prm,
                                     30 if quick else 120, 6 if quick else 25)
         swept[key] = status
